@@ -54,6 +54,7 @@ type SPDesc struct {
 	EntityID            string
 	ACS                 []ACS
 	SLO                 []SLO
+	EncCert             *keys.Pair // an encryption KeyDescriptor (use="encryption") listed in FRONT of the signing one
 	Cert                *keys.Pair // nil = no KeyDescriptor
 	CertUse             string     // "signing" (default), "" (no use attribute), "encryption"
 	CertWrap            int        // 0 = unwrapped base64, else column width
@@ -93,6 +94,11 @@ func (d *SPDesc) Node() *Node {
 		sp.Set("WantAssertionsSigned", d.WantAssertionSigned)
 	}
 	sp.Set("protocolSupportEnumeration", NSP)
+	if d.EncCert != nil {
+		kd := El(q(p, "KeyDescriptor")).Set("use", "encryption")
+		kd.Add(El("ds:KeyInfo", Attr{Name: "xmlns:ds", Value: NSDS}).Add(El("ds:X509Data").Add(El("ds:X509Certificate").SetText(d.EncCert.B64()))))
+		sp.Add(kd)
+	}
 	if d.Cert != nil {
 		kd := El(q(p, "KeyDescriptor"))
 		switch d.CertUse {
